@@ -135,11 +135,13 @@ def selftest_binding(ctx, behs, flags):
         k = [k for k, v in b2[i]['st'].items() if v != 'NONE'][0]
         b2[i]['st'][k] = 'v1' if b2[i]['st'][k] != 'v1' else 'v2'
         mm, _ = replay_class(ctx, [b2], CLASSES[0], flags, 'selftest')
+        if mm and mm[0][0].get('step', 99) < i:
+            continue            # the code under test disagrees earlier in this behaviour: the main replay reports that, try another one
         if not mm or mm[0][0].get('step') != i:
             raise Infra('binding self-test failed: a corrupted expectation was not noticed by the replay')
         ctx.notes['binding_selftest'] = 'corrupted expectation at step %d noticed (%s)' % (i, mm[0][0].get('kind'))
         return
-    raise Infra('binding self-test: no suitable behaviour')
+    ctx.notes['binding_selftest'] = 'skipped: every candidate behaviour already disagrees before the corrupted step'
 
 
 def gen(ctx, cfg, num, depth=110, seed_off=0):
